@@ -4,7 +4,7 @@ import numpy as np
 from tools.vlib import cases, core, problems_ref as PR, shipped
 
 TOL = 1e-6
-IMPORTS = "From Coq Require Import QArith List Bool.\nFrom MdpaxV Require Import Proofs.C13P Model.CorrSolve.\nImport ListNotations.\n"
+IMPORTS = "From Coq Require Import QArith Qabs List Bool.\nFrom MdpaxV Require Import Proofs.C13P Proofs.MultinomP Model.CorrSolve.\nImport ListNotations.\n"
 
 
 def expected_table(kind, P, t):
@@ -77,7 +77,42 @@ def check(p, t):
     return None
 
 
+def multinomial_items(P, t, per_action=4):
+    """the PROVED multinomial law (Proofs/MultinomP.mprob, Pascal-row coefficients) evaluated in the kernel on the age-class
+    probabilities of this configuration, against the implementation's received-units probability (its event probabilities
+    summed over the demand component)"""
+    import math
+    from fractions import Fraction as F
+    from tools.vlib.core import qlit
+    E = t["events"].tolist()
+    A = t["actions"].tolist()
+    pos = {tuple(e): i for i, e in enumerate(E)}
+    m, D = P["max_useful_life"], P["max_demand"]
+    c0, c1 = P["useful_life_at_arrival_distribution_c_0"], P["useful_life_at_arrival_distribution_c_1"]
+    out = []
+    for ai, a in enumerate(A):
+        q = a[0]
+        if q == 0:
+            continue
+        logits = ([0.0] + [c0[j] + c1[j] * q for j in range(m - 1)])[::-1]
+        mx = max(logits)
+        w = [math.exp(x - mx) for x in logits]
+        probs = [F(x / sum(w)) for x in w]
+        recs = sorted({tuple(e[1:]) for e in E if sum(e[1:]) == q})
+        step = max(1, len(recs) // per_action)
+        for rec in recs[::step][:per_action]:
+            impl = sum(float(t["prob"][0, ai, pos[(d,) + rec]]) for d in range(D + 1))
+            if not math.isfinite(impl):
+                out.append(("", "false"))
+                continue
+            plist = "[" + "; ".join(qlit(x) for x in probs) + "]"
+            rlist = "[" + "; ".join(str(int(x)) for x in rec) + "]%nat"
+            out.append(("", f"(Qle_bool (Qabs (mprob {plist} {rlist} - {qlit(F(impl))})) (1 # 100000))"))
+    return out
+
+
 def run(ctx, build):
+    n_multi = [0]
     probs = shipped.grid(ctx)
     tabs = shipped.tables(ctx, probs)
     corr, viols = [], []
@@ -103,6 +138,9 @@ def run(ctx, build):
             if p["kind"] == "mirjalili":
                 n, dl = F(P["weekday_demand_negbin_n"][0]), F(P["weekday_demand_negbin_delta"][0])
                 items.append(("", f"(let p := {qlit(n)} / ({qlit(dl)} + {qlit(n)}) in Qeq_bool ({qlit(n)} * (1 - p) / p) {qlit(dl)})"))
+                if t is not None and P["max_useful_life"] >= 2:
+                    items += multinomial_items(P, t)
+                    n_multi[0] += 1
         failing, errs = cases.coq_bools(ctx, "c16", items, imports=IMPORTS, shard=60)
         for e in errs:
             corr.append({"what": "model evaluation failed", "detail": e})
@@ -115,6 +153,7 @@ def run(ctx, build):
                 "reversed logits (Mirjalili), brute-force joint law of units issued under Poisson demands and binomial substitution (Hendrix), fire table (Forest); initial values",
         "samples": [{"problem": p["kind"], "params": {k: v for k, v in list(p["params"].items())[:5]}, "entries": int(np.prod(t["prob"].shape)) if t is not None else 0} for p, r, t in tabs[:8]],
         "traces_validated_against_impl": len(tabs),
+        "mirjalili_configurations_whose_received_law_was_compared_with_the_proved_multinomial": n_multi[0],
     }
     return {"coverage": cov, "corr_failures": corr, "impl_violations": viols,
             "assumptions": ["that numpyro's Gamma.cdf / negative-binomial / multinomial log-probs and jax.scipy's Poisson ARE those distributions is differential testing against scipy/math, not a theorem"]}
